@@ -51,7 +51,9 @@ def extensions(draw, name=None, max_defs=4, min_ops=0, min_types=0):
     }
 
 
-def mk_extension(a):
+def mk_extension(a, probe=False):
+    """probe=True serializes the extension after every addition (the result must not depend on
+    when the extension was serialized before)."""
     import hugr.ext as ext
     import hugr.tys as tys
     from semver import Version
@@ -61,6 +63,8 @@ def mk_extension(a):
         b = td["bound"]
         bd = ext.ExplicitBound(bound(b["v"])) if b["b"] == "E" else ext.FromParamsBound(list(b["idx"]))
         e.add_type_def(ext.TypeDef(td["name"], td.get("desc", ""), [mk_param(p) for p in td["params"]], bd))
+        if probe:
+            e.to_json()
     for od in a["ops"]:
         if od["params"] is None:
             sig = ext.OpDefSig(None, True)
@@ -68,7 +72,11 @@ def mk_extension(a):
             pf = tys.PolyFuncType([mk_param(p) for p in od["params"]], tys.FunctionType(mk_row(od["i"]), mk_row(od["o"]), list(od["reqs"])))
             sig = ext.OpDefSig(pf, od["binary"])
         e.add_op_def(ext.OpDef(od["name"], sig, od["desc"], dict(od["misc"])))
+        if probe:
+            e.to_json()
     for v in a["values"]:
+        if probe:
+            e.to_json()
         e.add_extension_value(ext.ExtensionValue(v["name"], mk_value(v["v"])))
     return e
 
